@@ -307,6 +307,7 @@ type clientStream struct {
 
 	flow        outflow // guarded by cc.mu
 	inflow      inflow  // guarded by cc.mu
+	unreadDone  bool    // guarded by cc.mu; flow control of the data unread at Close was returned
 	bytesRemain int64   // -1 means unknown; owned by transportResponseBody.Read
 	readErr     error   // sticky read error; owned by transportResponseBody.Read
 
@@ -2269,8 +2270,13 @@ func (b transportResponseBody) Close() error {
 	unread := cs.bufPipe.Len()
 	if unread > 0 {
 		cc.mu.Lock()
-		// Return connection-level flow control.
-		connAdd := cc.inflow.add(unread)
+		// Return connection-level flow control, once: a further Close
+		// finds the same number of unread bytes in the broken pipe.
+		var connAdd int32
+		if !cs.unreadDone {
+			cs.unreadDone = true
+			connAdd = cc.inflow.add(unread)
+		}
 		cc.mu.Unlock()
 
 		// TODO(dneil): Acquiring this mutex can block indefinitely.
